@@ -1,3 +1,12 @@
-import ClockBound.Model.F64
-import ClockBound.Model.Time
-import ClockBound.Model.Client
+-- Root of the `ClockBound` library: everything that `./check setup` pre-builds.
+import ClockBound.Model.Driver
+import ClockBound.Model.Seqlock
+import ClockBound.Properties.C05
+import ClockBound.Properties.C06
+import ClockBound.Properties.C07
+import ClockBound.Properties.C08
+import ClockBound.Properties.C09
+import ClockBound.Properties.C10
+import ClockBound.Properties.C11
+import ClockBound.Properties.C14
+import ClockBound.Properties.C19
